@@ -63,62 +63,70 @@ def word_tokens(toks, kind, width, n):
     return PROVED, ""
 
 
+def printers(chk, env, kind, K, nmax, tag):
+    """C09.W / C09.F on one configuration (tag "" = debug assertions on, " [rel]" = off: a printer must not depend on it)"""
+    facts = env.facts
+    for n in range(0, nmax + 1):
+        for mname, fk, wd in (("to_hex_string", "lower_hex", hexw(n)), ("to_bin_string", "binary", binw(n))):
+            key = "%s::%s n=%d%s" % (K.adt, mname, n, tag)
+            b = K.method(mname)
+            try:
+                it = env.interp()
+                st = State()
+                p = K.place(st, K.mk(st, n, sym_words(n, "a")))
+                outs = it.call_body(b, [p], st, K.env(n))
+                o, v, d = single_return(outs)
+                if o is not None:
+                    r = o.value
+                    if isinstance(r, Opaque) and r.kind == "string":
+                        v, d = word_tokens(r.data[0], fk, wd, n)
+                    else:
+                        v, d = UNDECIDED, "result %r" % (r,)
+            except Undecided as e:
+                v, d = UNDECIDED, e.cause
+            chk.add("C09.W", key, v, d, where=where_of(b), sample=dict(obligation=key, verdict=v) if n in (2, 7) else None)
+    # fmt traits
+    for trp, fk, wf in (("std::fmt::Display", "lower_hex", hexw), ("std::fmt::LowerHex", "lower_hex", hexw), ("std::fmt::Binary", "binary", binw)):
+        bs = [b for b, sty, tr in facts.trait_impl_methods(trp) if sty.get("path") == K.adt]
+        if not bs:
+            chk.refuted("C09.F", "anchor-missing: %s for %s%s" % (trp, K.adt, tag), "")
+            continue
+        for n in (0, 3, 6, 7, 9, 12) if chk.tier == "quick" else range(0, nmax + 1):
+            key = "<%s as %s>::fmt n=%d%s" % (K.adt, trp.split("::")[-1], n, tag)
+            try:
+                it = env.interp()
+                st = State()
+                p = K.place(st, K.mk(st, n, sym_words(n, "a")))
+                fc = new_cell()
+                st.mem[fc] = Opaque("formatter", ((),))
+                outs = it.call_body(bs[0], [p, Ptr(fc, ())], st, K.env(n))
+                o, v, d = single_return(outs)
+                if o is not None:
+                    toks = it.read_ptr(o.state, Ptr(fc, ())).data[0]
+                    T = table_words(n)
+                    ok = (len(toks) == T + 4 and toks[0] == ("lit", "Lut") and toks[2] == ("lit", "(") and toks[-1] == ("lit", ")")
+                          and toks[1][0] == "fmt" and toks[1][1] == "display" and isinstance(toks[1][4], W) and toks[1][4].val == n)
+                    if not ok:
+                        v, d = REFUTED, "printed form is not Lut<n>(...): %s" % [t[:2] if t[0] == "fmt" else t for t in toks[:6]]
+                    else:
+                        v, d = word_tokens(toks[3:-1], fk, wf(n), n)
+            except Undecided as e:
+                v, d = UNDECIDED, e.cause
+            chk.add("C09.F", key, v, d, where=where_of(bs[0]))
+
+
 def run(chk):
     facts = F.load("dbg")
     env = Env(facts)
+    env_rel = Env(F.load("rel"))
     nmax = 12
     chk.trust("core::fmt renders {:0w$x} / {:0w$b} as the zero-padded lower-case hex / binary digits of the value")
     chk.trust("u64::from_str_radix(s,16) returns Ok(v) with v < 16^len for digit strings, accepts a leading '+', Err otherwise (std)")
     chk.assume("format-string literals are read from the source text of the format macro call")
     for kind in ("dyn", "static"):
         K = env.kinds[kind]
-        for n in range(0, nmax + 1):
-            for mname, fk, wd in (("to_hex_string", "lower_hex", hexw(n)), ("to_bin_string", "binary", binw(n))):
-                key = "%s::%s n=%d" % (K.adt, mname, n)
-                b = K.method(mname)
-                try:
-                    it = env.interp()
-                    st = State()
-                    p = K.place(st, K.mk(st, n, sym_words(n, "a")))
-                    outs = it.call_body(b, [p], st, K.env(n))
-                    o, v, d = single_return(outs)
-                    if o is not None:
-                        r = o.value
-                        if isinstance(r, Opaque) and r.kind == "string":
-                            v, d = word_tokens(r.data[0], fk, wd, n)
-                        else:
-                            v, d = UNDECIDED, "result %r" % (r,)
-                except Undecided as e:
-                    v, d = UNDECIDED, e.cause
-                chk.add("C09.W", key, v, d, where=where_of(b), sample=dict(obligation=key, verdict=v) if n in (2, 7) else None)
-        # fmt traits
-        for trp, fk, wf in (("std::fmt::Display", "lower_hex", hexw), ("std::fmt::LowerHex", "lower_hex", hexw), ("std::fmt::Binary", "binary", binw)):
-            bs = [b for b, sty, tr in facts.trait_impl_methods(trp) if sty.get("path") == K.adt]
-            if not bs:
-                chk.refuted("C09.F", "anchor-missing: %s for %s" % (trp, K.adt), "")
-                continue
-            for n in (0, 3, 6, 7, 9, 12) if chk.tier == "quick" else range(0, nmax + 1):
-                key = "<%s as %s>::fmt n=%d" % (K.adt, trp.split("::")[-1], n)
-                try:
-                    it = env.interp()
-                    st = State()
-                    p = K.place(st, K.mk(st, n, sym_words(n, "a")))
-                    fc = new_cell()
-                    st.mem[fc] = Opaque("formatter", ((),))
-                    outs = it.call_body(bs[0], [p, Ptr(fc, ())], st, K.env(n))
-                    o, v, d = single_return(outs)
-                    if o is not None:
-                        toks = it.read_ptr(o.state, Ptr(fc, ())).data[0]
-                        T = table_words(n)
-                        ok = (len(toks) == T + 4 and toks[0] == ("lit", "Lut") and toks[2] == ("lit", "(") and toks[-1] == ("lit", ")")
-                              and toks[1][0] == "fmt" and toks[1][1] == "display" and isinstance(toks[1][4], W) and toks[1][4].val == n)
-                        if not ok:
-                            v, d = REFUTED, "printed form is not Lut<n>(...): %s" % [t[:2] if t[0] == "fmt" else t for t in toks[:6]]
-                        else:
-                            v, d = word_tokens(toks[3:-1], fk, wf(n), n)
-                except Undecided as e:
-                    v, d = UNDECIDED, e.cause
-                chk.add("C09.F", key, v, d, where=where_of(bs[0]))
+        printers(chk, env, kind, K, nmax, "")
+        printers(chk, env_rel, kind, env_rel.kinds[kind], nmax, " [rel]")
         # ---------------------------------------------------------------- printing, text windows
         text_windows(chk, env, kind, K)
         # ---------------------------------------------------------------- parsing, byte windows
